@@ -1047,6 +1047,31 @@ class, IX in ROM, wrapped) of requests that returned to the caller"
         }
     }
 
+    // 0b. the longest blocks (the 16-bit length word allows 65535 bytes): a short request leaves nearly all of
+    // the block unread, the next request has to skip the leftovers across the 65408/65536 marks
+    {
+        let mut r = Rng::new(o.seed ^ 0x0C10_B16);
+        let lens: Vec<usize> = if o.thorough() { vec![65409, 65410, 65535, 65534, 40000] } else { vec![65410, 65535] };
+        for len in lens {
+            let big = gen_block(&mut r, len);
+            let small = gen_block(&mut r, 19);
+            let mut tape = vec![(len & 0xFF) as u8, (len >> 8) as u8];
+            tape.extend_from_slice(&big);
+            tape.extend_from_slice(&[19, 0]);
+            tape.extend_from_slice(&small);
+            let reqs = vec![
+                Req { a: big[0], load: true, ix: 0x8000, de: 10, fill: Fill::None },
+                Req { a: small[0], load: true, ix: 0x9000, de: 17, fill: Fill::None },
+                Req { a: 0xFF, load: true, ix: 0xA000, de: 4, fill: Fill::None },
+            ];
+            let c = Case { m128: len % 2 == 1, tape, reqs };
+            rep.count("cases", "longest blocks");
+            if let Some(d) = run_case(&mut model, fixed, &c, Some(&mut rep)) {
+                report_failure(&mut model, &mut rep, fixed, &c, d);
+            }
+        }
+    }
+
     // 1. component level
     let mut rng = Rng::new(o.seed ^ 0x0C10_0001);
     for n in 0..o.n(300, 30_000) {
